@@ -4,7 +4,7 @@ from __future__ import annotations
 from ..engine import HOLDS, VIOLATED, UNDECIDED
 from .. import rules as R
 from ..model import norm_text
-from ..values import ustr, POLY, ONE, Shape
+from ..values import ustr, POLY, ONE, Shape, plain_dep
 from .. import ext_models as X
 
 
@@ -41,11 +41,34 @@ def flow_objective(rep, res, entry, need, probs=None, label="objective", rule="R
             continue
         deps = R.closure_deps(res, obj)
         for o in sorted(need):
-            ok = o in deps
+            ok, how = plain_dep(deps, o)
             rep.check(rule, f"{o} → {label}", ok, where=where_po(po),
                       construct=f"{o} → {label} of the problem built in {po.fn.name}", entry=entry, config=res.config,
-                      msg=(f"input `{o}` never reaches the {label} (DATA origins reaching it: {sorted(deps)}): "
-                           f"the fit cannot depend on it") if not ok else f"DATA ⊇ {{{o}}}")
+                      msg=((f"input `{o}` reaches the {label} only through a lossy map on some path ({', '.join(how)}: clamp / rounding / "
+                            f"projection): the optimum is computed for a different `{o}` than the one given") if how else
+                           (f"input `{o}` never reaches the {label} (DATA origins reaching it: {sorted(deps)}): "
+                            f"the fit cannot depend on it")) if not ok else f"DATA ⊇ {{{o}}}")
+    must_enter(rep, res, entry, need, label, rule)
+
+
+def must_enter(rep, res, entry, origins, label="objective", rule="R-FLOW"):
+    """an input that enters the cvx expressions directly (as a numeric operand, not through a Parameter) does so on EVERY path: the
+    sites where it enters are not all guarded by tests the configuration leaves undecided (e.g. a test on the input's own values)"""
+    def undecided(ev):
+        return [(g[0], g[1]) for g in ev.guards if len(g) > 3 and not g[3]]
+    for o in sorted(origins):
+        evs = [ev for ev in res.events("cvx_entry") if any(o in x.flat().data for x in ev.d["operands"])]
+        if not evs:
+            continue
+        free = [ev for ev in evs if not undecided(ev)]
+        ok = bool(free)
+        if not ok:
+            singles = [u[0] for u in (undecided(ev) for ev in evs) if len(u) == 1]
+            ok = any((t, not p_) in singles for (t, p_) in singles)
+        ev = evs[0]
+        rep.check(rule, f"{o} enters the {label} on every path", ok, where=ev.loc, construct=ev.text(), entry=entry, config=res.config,
+                  msg=(f"`{o}` enters the problem's expressions only under the undecided guard(s) {[g[0] for g in undecided(ev)]}: for inputs "
+                       f"where the guard fails the term is silently dropped from the {label}") if not ok else "enters unconditionally")
 
 
 def flow_constraints(rep, res, entry, need, probs=None, rule="R-FLOW", what="constraints"):
@@ -202,7 +225,7 @@ def sign_attrs(rep, res, entry):
 def forwards(rep, res, entry, callee_names, need, rule="R-FORWARD", exact=True):
     """The call(s) from the entry into the fitting layer bind each parameter in `need` (dict callee-param ->
     required origin) to a value that DATA-depends on that origin."""
-    calls = [ev for ev in res.events("call") if ev.d["callee"].name in callee_names and len(ev.path) == 1]
+    calls = [ev for ev in res.events("call") if ev.d["callee"].name in callee_names and R.near(ev)]
     if not calls:
         rep.undecided(rule, "call into fitting layer", entry=entry, config=res.config, construct=",".join(callee_names))
         return []
@@ -219,11 +242,13 @@ def forwards(rep, res, entry, callee_names, need, rule="R-FORWARD", exact=True):
             ok = v is not None and origin in v.flat().data
             if ok and exact:
                 extra = {o for o in v.flat().data if o != origin and not o.startswith(("sol#", "par#", "xsample@", "pick@"))}
+                # unseeded randomness must not reach a forwarded option in any way (not even through int(...) / a size)
+                extra |= {o for o in v.flat().deps_all() if o.startswith("entropy@")}
                 if extra:
                     ok = False
             rep.check(rule, f"{origin} → {fn.name}({p}=)", ok, where=ev.loc, construct=f"{fn.name}(… {p}= …) in {ev.fn.name}",
                       entry=entry, config=res.config,
-                      msg=(f"`{p}` of {fn.name} is " + ("not passed" if v is None else f"bound to a value computed from {sorted(v.flat().data)}")
+                      msg=(f"`{p}` of {fn.name} is " + ("not passed" if v is None else f"bound to a value computed from {sorted(v.flat().data | {o for o in v.flat().deps_all() if o.startswith('entropy@')})}")
                            + f" instead of being handed on unchanged from {origin}") if not ok else "forwarded")
     return calls
 
